@@ -30,7 +30,7 @@ CHECKS = {
          "For each sampled scenario all cut points are enumerated: export, drop, rebuild from the exported value, continue under a fresh schedule; output must equal the uninterrupted run and the exported value must equal the observable public chaining value.", "6/C09"),
  "C10": (True, "exploration", SIM + ": seeded histories of seek/apply/position operations with position arithmetic, twin routes to the same position and seam-trace invariants",
          "Reported position must equal the tracked integer position or be an error when it does not fit; bytes after a seek equal the keystream from offset 0 (sequentially or via an independent route).", "6/C10"),
- "C11": (True, "fault_enumeration", SIM + ": resource-exhaustion fault - instances are placed a few blocks before the keystream limit and driven across it; error contract plus seam-trace uniqueness invariant",
+ "C11": (True, "fault_enumeration", SIM + ": resource-exhaustion fault - instances are placed a few blocks before the keystream limit and driven across it, with jumps of 2^k blocks (modulo the counter width) inside the same keystream; error contract plus seam-trace uniqueness invariant",
          "Requests succeed iff they fit; failures leave buffers, position and following bytes untouched; remaining_blocks is exact; no cipher input value ever serves two positions.", "6/C11"),
  "C12": (True, "exploration", SIM + ": twin runs of identical histories, one in place and one buffer-to-buffer into a dirty output buffer",
          "Partial fit: the buffer form is one more per-step schedule choice; outputs and exported state must agree after every call.", "6/C12"),
